@@ -372,10 +372,21 @@ def run(ctx):
         uses_mapped = any(isinstance(n, ast.Attribute) and n.attr in ('_mapped_any_loop', '_mapped_single_loop') for n in ast.walk(fn))
         uses_raw = any(isinstance(n, ast.Attribute) and n.attr in ('circuit', '_circuit') and isinstance(n.value, ast.Name) and n.value.id == 'self' for n in ast.walk(fn))
         counts = []
+        # locals that stand for the repetition count, with or without its sign:  k = abs(self.repetitions)
+        rep_locals = {}
+        for st_ in ast.walk(fn):
+            if isinstance(st_, ast.Assign) and len(st_.targets) == 1 and isinstance(st_.targets[0], ast.Name):
+                occ = [x_ for x_ in ast.walk(st_.value) if isinstance(x_, ast.Attribute) and x_.attr in ('repetitions', '_repetitions')
+                       and isinstance(x_.value, ast.Name) and x_.value.id == 'self']
+                if occ:
+                    inabs = any(isinstance(c_, ast.Call) and call_name(c_) == 'abs' and any(x_ is o_ for o_ in occ for x_ in ast.walk(c_)) for c_ in ast.walk(st_.value))
+                    rep_locals[st_.targets[0].id] = inabs
         for n in ast.walk(fn):
-            if isinstance(n, ast.Attribute) and n.attr in ('repetitions', '_repetitions') and isinstance(n.value, ast.Name) and n.value.id == 'self':
+            is_attr = isinstance(n, ast.Attribute) and n.attr in ('repetitions', '_repetitions') and isinstance(n.value, ast.Name) and n.value.id == 'self'
+            is_loc = isinstance(n, ast.Name) and isinstance(n.ctx, ast.Load) and n.id in rep_locals
+            if is_attr or is_loc:
                 # arithmetic use: operand of * / ** or argument of matrix_power / range, possibly through cast()/abs()
-                cur, in_abs, arith = n, False, False
+                cur, in_abs, arith = n, (rep_locals[n.id] if is_loc else False), False
                 while cur in parents:
                     p_ = parents[cur]
                     if isinstance(p_, ast.Call) and call_name(p_) == 'abs':
